@@ -19,6 +19,7 @@ import (
 	"fmt"
 
 	"golang.org/x/net/http2"
+	"golang.org/x/net/http2/hpack"
 )
 
 // queuedFrame stores frames that belong to a stream and need to be kept in order. The need for
@@ -83,7 +84,12 @@ type queuedHeaderFrame struct {
 	streamID  uint32
 	endStream bool
 	priority  http2.PriorityParam
-	chunks    [][]byte
+	headers   []hpack.HeaderField
+	relay     *relay // encodes the header block when the frame is released
+
+	// chunks and err are set by prepare.
+	chunks [][]byte
+	err    error
 }
 
 func (f *queuedHeaderFrame) StreamID() uint32 {
@@ -94,7 +100,20 @@ func (*queuedHeaderFrame) flowControlSize() int {
 	return 0
 }
 
+// prepare encodes the header block. It is called when the frame is released to the output channel,
+// with relay.flowMu held, so that header blocks are encoded in the order they are written.
+func (f *queuedHeaderFrame) prepare() {
+	var metadataLength uint32
+	if !f.priority.IsZero() {
+		metadataLength = headersPriorityMetadataLength
+	}
+	f.chunks, f.err = f.relay.headerChunks(f.headers, metadataLength)
+}
+
 func (f *queuedHeaderFrame) send(dest *http2.Framer) error {
+	if f.err != nil {
+		return fmt.Errorf("encoding headers %v: %w", f.headers, f.err)
+	}
 	if err := dest.WriteHeaders(http2.HeadersFrameParam{
 		StreamID:      f.streamID,
 		BlockFragment: f.chunks[0],
@@ -131,7 +150,12 @@ func (f *queuedHeaderFrame) String() string {
 type queuedPushPromiseFrame struct {
 	streamID  uint32
 	promiseID uint32
-	chunks    [][]byte
+	headers   []hpack.HeaderField
+	relay     *relay // encodes the header block when the frame is released
+
+	// chunks and err are set by prepare.
+	chunks [][]byte
+	err    error
 }
 
 func (f *queuedPushPromiseFrame) StreamID() uint32 {
@@ -142,7 +166,15 @@ func (*queuedPushPromiseFrame) flowControlSize() int {
 	return 0
 }
 
+// prepare encodes the header block, see queuedHeaderFrame.prepare.
+func (f *queuedPushPromiseFrame) prepare() {
+	f.chunks, f.err = f.relay.headerChunks(f.headers, pushPromiseMetadataLength)
+}
+
 func (f *queuedPushPromiseFrame) send(dest *http2.Framer) error {
+	if f.err != nil {
+		return fmt.Errorf("encoding push promise headers %v: %w", f.headers, f.err)
+	}
 	if err := dest.WritePushPromise(http2.PushPromiseParam{
 		StreamID:      f.streamID,
 		PromiseID:     f.promiseID,
